@@ -1,4 +1,5 @@
 import RedisEmu.Exec
+import RedisEmu.Proofs.GoArith
 import Mathlib.Tactic.SplitIfs
 /-
   C03 — list commands. Theorems about `RedisEmu.Cmds` (family `list` of the correspondence run).
@@ -50,7 +51,7 @@ theorem lrange_negative (l : List Bytes) (s e : Nat) (h0 : 1 ≤ e) (h1 : e ≤ 
     simp only [a1, a2, a3, a4, ↓reduceIte]
     have b1 : ((l.length : Int) + -(s : Int)).toNat = l.length - s := by omega
     have b2 : ((l.length : Int) + -(e : Int) - ((l.length : Int) + -(s : Int)) + 1).toNat = s - e + 1 := by omega
-    simp [b1, b2]
+    rw [b1, b2]
 
 /-- whatever the indexes, LRANGE returns a contiguous piece of the list, in list order -/
 theorem lrange_infix (l : List Bytes) (start stop : Int) : lrangeOf l start stop <:+: l := by
@@ -292,5 +293,21 @@ theorem lset_positions (l : List Bytes) (j : Nat) (v : Bytes) (p : Nat) :
   refine ⟨List.length_set, ?_, ?_⟩
   · intro h; rw [List.getElem?_set_ne (Ne.symm h)]
   · intro h; rw [List.getElem?_set_self h]
+
+/-! ### the index arithmetic of LRANGE and LTRIM as the Go source has it now (`GoArith.lean`, regenerated) -/
+
+/-- The statements of `lrange` between its comments "convert negative indexes" and "find the start item",
+    translated from the Go source on this run, compute for every pair of int64 indexes and every list length the
+    bounds `lrangeOf` walks between (`lrangeOf_bounds`) — the function `lrange_all`, `lrange_in_range`,
+    `lrange_negative` and `lrange_infix` are about. -/
+theorem lrange_clamp_as_coded (s e n : BitVec 64) (hn : 0 ≤ n.toInt) :
+    ((Go.lrangeClamp s e n).1.toInt, (Go.lrangeClamp s e n).2.toInt) = lrangeBounds n.toInt s.toInt e.toInt :=
+  go_lrangeClamp s e n hn
+
+/-- … and the statements of `ltrim` before its loops compute the positions `ltrimOf` keeps (`ltrimOf_bounds`),
+    which are what LRANGE shows (`ltrim_eq_lrange`) -/
+theorem ltrim_clamp_as_coded (s e n : BitVec 64) (hn : 0 ≤ n.toInt) :
+    ((Go.ltrimClamp s e n).1.toInt, (Go.ltrimClamp s e n).2.toInt) = ltrimBounds n.toInt s.toInt e.toInt :=
+  go_ltrimClamp s e n hn
 
 end RedisEmu
